@@ -60,6 +60,11 @@ def random_cfg(rnd, unordered=None, maxrules=12, with_regex=True):
     if unordered is None:
         unordered = rnd.random() < 0.3
     d = GM.defaults(disable_ordering=True) if unordered else (None if rnd.random() < 0.7 else GM.defaults())
+    if d is not None and rnd.random() < 0.15:
+        d["match_type"] = b"regex"                    # rules without match_type are then regular expressions
+        for r in rules:
+            if r["match_type"] is None and r["match"].startswith(b"*"):
+                r["match_type"] = b"glob"             # "*..." is not a regular expression: keep the configuration loadable
     return (d, rules)
 
 
@@ -111,4 +116,6 @@ def invalid_cfg(rnd):
         bad, e = mk(observer_type=b"summary", summary=GM.summ(quantiles=[(rnd.choice([1.5, -0.5, float("nan"), float("inf")]), 0.1)])), "EBadSummary"
     else:
         bad, e = mk(observer_type=b"summary", summary=GM.summ(quantiles=[(0.5, 0.1)], max_age=-10**9)), "EBadSummary"
+    if bad["match_type"] is None and d is not None and d.get("match_type") == b"regex":
+        bad["match_type"] = b"glob"                   # the defect is meant for a glob rule
     return (d, rules[:pos] + [bad] + rules[pos:]), e
